@@ -5,44 +5,54 @@ package __PKG__
 // reference - enough to exercise the hand-written MarshalJSON methods
 // (JSONStringOrStrings, VerificationRelationship), which are executed.
 
+// all text of the DID messages is kept free of bytes 0xF8..0xFF: the collision class they cause in
+// JSON text (known finding, shown on the AOL and PNFT messages) is the same mechanism here and
+// is not listed again per DID field.
+func vSBText(site string) string {
+	s := vNondetAtom(site)
+	vAssume(len(s) <= 80)
+	vAssume(vNoBytesIn(s, 0, 1<<20, "\xf8\xf9\xfa\xfb\xfc\xfd\xfe\xff"))
+	return s
+}
+
 func vSBDoc(site string) *DIDDocument {
-	doc := &DIDDocument{Id: vNondetAtom(site + ".id"), Contexts: &JSONStringOrStrings{ContextDIDV1}}
+	doc := &DIDDocument{Id: vSBText(site + ".id"), Contexts: &JSONStringOrStrings{ContextDIDV1}}
 	n := vNondetInt(site + ".nController")
 	vAssume(n >= 0 && n <= 2)
 	if n == 1 {
-		doc.Controller = &JSONStringOrStrings{vNondetAtom(site + ".c0")}
+		doc.Controller = &JSONStringOrStrings{vSBText(site + ".c0")}
 	} else if n == 2 {
-		doc.Controller = &JSONStringOrStrings{vNondetAtom(site + ".c0"), vNondetAtom(site + ".c1")}
+		doc.Controller = &JSONStringOrStrings{vSBText(site + ".c0"), vSBText(site + ".c1")}
 	}
-	m := &VerificationMethod{Id: vNondetAtom(site + ".vmid"), Type: ES256K_2019, Controller: vNondetAtom(site + ".vmc"), PublicKeyBase58: vNondetAtom(site + ".key")}
+	m := &VerificationMethod{Id: vSBText(site + ".vmid"), Type: ES256K_2019, Controller: vSBText(site + ".vmc"), PublicKeyBase58: vSBText(site + ".key")}
 	doc.VerificationMethods = []*VerificationMethod{m}
 	if vNondetBool(site + ".dedicatedAuth") {
 		doc.Authentications = []VerificationRelationship{NewVerificationRelationshipDedicated(*m)}
 	} else {
-		doc.Authentications = []VerificationRelationship{NewVerificationRelationship(vNondetAtom(site + ".authref"))}
+		doc.Authentications = []VerificationRelationship{NewVerificationRelationship(vSBText(site + ".authref"))}
 	}
 	return doc
 }
 
 func vHarnessSignBytesCreateDID() {
-	m1 := &MsgCreateDIDRequest{Did: vNondetAtom("did1"), Document: vSBDoc("doc1"), VerificationMethodId: vNondetAtom("vm1"), Signature: vNondetBytes("sig1", 70), FromAddress: vNondetAddr("from1")}
-	m2 := &MsgCreateDIDRequest{Did: vNondetAtom("did2"), Document: vSBDoc("doc2"), VerificationMethodId: vNondetAtom("vm2"), Signature: vNondetBytes("sig2", 70), FromAddress: vNondetAddr("from2")}
+	m1 := &MsgCreateDIDRequest{Did: vSBText("did1"), Document: vSBDoc("doc1"), VerificationMethodId: vSBText("vm1"), Signature: vNondetBytes("sig1", 70), FromAddress: vNondetAddr("from1")}
+	m2 := &MsgCreateDIDRequest{Did: vSBText("did2"), Document: vSBDoc("doc2"), VerificationMethodId: vSBText("vm2"), Signature: vNondetBytes("sig2", 70), FromAddress: vNondetAddr("from2")}
 	vAssume(vAny(m1.Did != m2.Did, !vDocEqual(m1.Document, m2.Document), m1.VerificationMethodId != m2.VerificationMethodId, !vBytesEqual(m1.Signature, m2.Signature), m1.FromAddress != m2.FromAddress))
 	vCover("two different create-did messages")
 	vCheck(!vBytesEqual(m1.GetSignBytes(), m2.GetSignBytes()), "C14: different CreateDID messages have different sign bytes")
 }
 
 func vHarnessSignBytesUpdateDID() {
-	m1 := &MsgUpdateDIDRequest{Did: vNondetAtom("did1"), Document: vSBDoc("doc1"), VerificationMethodId: vNondetAtom("vm1"), Signature: vNondetBytes("sig1", 70), FromAddress: vNondetAddr("from1")}
-	m2 := &MsgUpdateDIDRequest{Did: vNondetAtom("did2"), Document: vSBDoc("doc2"), VerificationMethodId: vNondetAtom("vm2"), Signature: vNondetBytes("sig2", 70), FromAddress: vNondetAddr("from2")}
+	m1 := &MsgUpdateDIDRequest{Did: vSBText("did1"), Document: vSBDoc("doc1"), VerificationMethodId: vSBText("vm1"), Signature: vNondetBytes("sig1", 70), FromAddress: vNondetAddr("from1")}
+	m2 := &MsgUpdateDIDRequest{Did: vSBText("did2"), Document: vSBDoc("doc2"), VerificationMethodId: vSBText("vm2"), Signature: vNondetBytes("sig2", 70), FromAddress: vNondetAddr("from2")}
 	vAssume(vAny(m1.Did != m2.Did, !vDocEqual(m1.Document, m2.Document), m1.VerificationMethodId != m2.VerificationMethodId, !vBytesEqual(m1.Signature, m2.Signature), m1.FromAddress != m2.FromAddress))
 	vCover("two different update-did messages")
 	vCheck(!vBytesEqual(m1.GetSignBytes(), m2.GetSignBytes()), "C14: different UpdateDID messages have different sign bytes")
 }
 
 func vHarnessSignBytesDeactivateDID() {
-	m1 := &MsgDeactivateDIDRequest{Did: vNondetAtom("did1"), VerificationMethodId: vNondetAtom("vm1"), Signature: vNondetBytes("sig1", 70), FromAddress: vNondetAddr("from1")}
-	m2 := &MsgDeactivateDIDRequest{Did: vNondetAtom("did2"), VerificationMethodId: vNondetAtom("vm2"), Signature: vNondetBytes("sig2", 70), FromAddress: vNondetAddr("from2")}
+	m1 := &MsgDeactivateDIDRequest{Did: vSBText("did1"), VerificationMethodId: vSBText("vm1"), Signature: vNondetBytes("sig1", 70), FromAddress: vNondetAddr("from1")}
+	m2 := &MsgDeactivateDIDRequest{Did: vSBText("did2"), VerificationMethodId: vSBText("vm2"), Signature: vNondetBytes("sig2", 70), FromAddress: vNondetAddr("from2")}
 	vAssume(vAny(m1.Did != m2.Did, m1.VerificationMethodId != m2.VerificationMethodId, !vBytesEqual(m1.Signature, m2.Signature), m1.FromAddress != m2.FromAddress))
 	vCover("two different deactivate-did messages")
 	vCheck(!vBytesEqual(m1.GetSignBytes(), m2.GetSignBytes()), "C14: different DeactivateDID messages have different sign bytes")
